@@ -18,7 +18,7 @@ CONSTANTS MaxMembers, NamesEmit
 VARIABLE ms
 Pool == {Field("A", "int"), Field("A", "string"), Field("B", "int"), Field("c", "int"),
          Embed("I1", FALSE), Embed("I2", FALSE), Embed("I3", FALSE), Embed("I4", FALSE), Embed("D", FALSE), Embed("E", FALSE),
-         Embed("I1", TRUE), Embed("I3", TRUE), Embed("I4", TRUE), Embed("D", TRUE)}
+         Embed("I1", TRUE), Embed("I3", TRUE), Embed("I4", TRUE), Embed("D", TRUE), Embed("I5", FALSE)}
 Names == {"A", "B", "c", "M", "Z", "I1", "I3", "D"}
 
 Init == ms = <<>>
@@ -36,6 +36,6 @@ ShadowingIsShallowest ==
 NameCase(mth) ==
   LET s == Shape(ms, mth)
   IN [members |-> ms, method |-> mth,
-      names |-> [nm \in Names |-> [look |-> Lookup(s, nm), byval |-> Usable(s, nm, FALSE), byptr |-> Usable(s, nm, TRUE)]]]
+      names |-> [nm \in Names |-> [look |-> Lookup(s, nm), fld |-> LookupField(s, nm).res = "field" /\ IsExported(nm), byval |-> Usable(s, nm, FALSE), byptr |-> Usable(s, nm, TRUE)]]]
 EmitNames == (Len(ms) >= 1 /\ NamesEmit = "cases") => \A mth \in {"none", "val", "ptr"} : PrintT(ToJson(NameCase(mth)))
 =============================================================================
